@@ -89,6 +89,17 @@ func dump(d *db.DB) (string, error) {
 	var sb strings.Builder
 	for _, i := range l {
 		fmt.Fprintf(&sb, "%q act=%d", i.Name, i.ActiveVersion)
+		// what the default get and the conditional get serve
+		if g, err := d.Get(super, i.Name); err == nil {
+			fmt.Fprintf(&sb, " get=%d", g.Version)
+		} else {
+			fmt.Fprintf(&sb, " get=ERR")
+		}
+		if _, err := d.GetConditional(super, i.Name, i.ActiveVersion); err != nil && err.Error() == "value not changed" {
+			sb.WriteString(" cond=304")
+		} else {
+			fmt.Fprintf(&sb, " cond=%v", err)
+		}
 		vs := append([]api.SecretVersion{}, i.Versions...)
 		sort.Slice(vs, func(a, b int) bool { return vs[a] < vs[b] })
 		for _, v := range vs {
